@@ -104,6 +104,27 @@ fn c08_control_flow_programs() {
     }
     // jump onto a 0x5b that is data of a PUSH32 cut short by the end of the code: 60 05 56 00 7f 5b 60 01 60 09 55
     progs.push(("target inside truncated push data", vec![0x60, 0x05, 0x56, 0x00, 0x7f, 0x5b, 0x60, 0x01, 0x60, 0x09, 0x55], Some(9), None));
+    // RETURN / REVERT with boundary offsets and sizes still end the path
+    for (op, name) in [(0xf3u8, "RETURN"), (0xfd, "REVERT")] {
+        for off in [vec![0x68u8, 1, 0, 0, 0, 0, 0, 0, 0, 0], { let mut v = vec![0x7f, 0x80]; v.extend([0u8; 31]); v }, { let mut v = vec![0x7f]; v.extend([0xffu8; 32]); v }] {
+            // PUSH1 size ; PUSHn offset ; OP ; dead: PUSH1 1 PUSH1 9 SSTORE
+            let mut p = vec![0x60, 0x20];
+            p.extend(&off);
+            p.extend([op, 0x60, 0x01, 0x60, 0x09, 0x55, 0x00]);
+            progs.push((Box::leak(format!("dead code after {name} with offset {:02x?}..", &off[..2]).into_boxed_str()), p, Some(9), None));
+            let mut p = off.clone();
+            p.extend([0x60, 0x00, op, 0x60, 0x01, 0x60, 0x09, 0x55, 0x00]);
+            progs.push((Box::leak(format!("dead code after {name} with size {:02x?}..", &off[..2]).into_boxed_str()), p, Some(9), None));
+        }
+    }
+    // a stack overflow (1025th item by PUSH or DUP) and an underflow end the path: the code behind them is dead
+    for (name, tail) in [("DUP1 on a full stack", vec![0x80u8]), ("PUSH1 on a full stack", vec![0x60, 0x07]), ("DUP16 on a full stack", vec![0x8f])] {
+        let mut p: Vec<u8> = std::iter::repeat([0x60u8, 0x00]).take(1024).flatten().collect();
+        p.extend(&tail);
+        p.extend([0x60, 0x01, 0x60, 0x09, 0x55, 0x00]);
+        progs.push((Box::leak(format!("dead code after {name}").into_boxed_str()), p, Some(9), None));
+    }
+    progs.push(("dead code after a stack underflow", vec![0x01, 0x60, 0x01, 0x60, 0x09, 0x55, 0x00], Some(9), None));
     // both branches of JUMPI explored: CALLDATASIZE PUSH1 9 JUMPI  PUSH1 1 PUSH1 2 SSTORE STOP JUMPDEST PUSH1 1 PUSH1 3 SSTORE STOP
     let p = vec![0x36, 0x60, 0x0a, 0x57, 0x60, 0x01, 0x60, 0x02, 0x55, 0x00, 0x5b, 0x60, 0x01, 0x60, 0x03, 0x55, 0x00];
     progs.push(("jumpi fallthrough", p.clone(), None, Some(2)));
@@ -131,4 +152,36 @@ fn c08_control_flow_programs() {
         }
     }
     println!("CASES c08_programs {n}");
+}
+
+/// the target of every valid JUMP / JUMPI is really executed — also when it is the last byte of the code
+#[test]
+fn c08_valid_targets_are_executed() {
+    use storage_layout_extractor::{disassembly::InstructionStream, vm::{Config, VM}};
+    std::panic::set_hook(Box::new(|_| {}));
+    // (code, offsets that must be visited by some path)
+    let progs: Vec<(Vec<u8>, Vec<u32>)> = vec![
+        (vec![0x36, 0x60, 0x05, 0x57, 0x00, 0x5b], vec![4, 5]),                                 // JUMPI to a JUMPDEST in the final byte
+        (vec![0x60, 0x03, 0x56, 0x5b], vec![3]),                                                 // JUMP to a final-byte JUMPDEST (stepped over, so only "no error")
+        (vec![0x36, 0x60, 0x06, 0x57, 0x00, 0x00, 0x5b, 0x00], vec![4, 6, 7]),
+        (vec![0x36, 0x60, 0x04, 0x60, 0x05, 0x01, 0x57, 0x00, 0x00, 0x5b, 0x60, 0x01, 0x50, 0x00], vec![7, 9, 10]),   // computed constant target 4 + 5
+        (vec![0x36, 0x58, 0x60, 0x07, 0x01, 0x57, 0x00, 0x00, 0x5b, 0x00], vec![6, 8, 9]),                              // PC-relative target
+        (vec![0x60, 0x04, 0x60, 0x05, 0x01, 0x56, 0x00, 0x00, 0x00, 0x5b, 0x60, 0x01, 0x50, 0x00], vec![10, 12]),        // computed target through JUMP
+    ];
+    let n = progs.len();
+    for (code, must) in progs {
+        let Ok(is) = InstructionStream::try_from(code.as_slice()) else { continue };
+        let Ok(mut vm) = VM::new(is, Config::default(), LazyWatchdog.in_rc()) else { continue };
+        let r = vm.execute();
+        if let Err(e) = &r { witness("C08", "ctl.legal_transfer_followed", format!("{code:02x?}"), format!("execution errors {:?}", e.payloads().iter().map(|x| format!("{:?}", x.payload)).collect::<Vec<_>>()), "no error: every jump is legal".into()); }
+        let res = vm.consume();
+        for off in must {
+            // a JUMPDEST reached by JUMP is stepped over without being counted; everything else on the path is counted
+            let seen = res.states.iter().any(|st| st.visited_instructions().visit_count(off).unwrap_or(0) > 0);
+            if !seen && !(code[off as usize] == 0x5b && off as usize + 1 == code.len() && code.contains(&0x56)) {
+                witness("C08", "ctl.legal_transfer_followed", format!("{code:02x?}"), format!("offset {off} never executed"), "both outcomes of the jump explored".into());
+            }
+        }
+    }
+    println!("CASES c08_targets {n}");
 }
